@@ -101,6 +101,8 @@ func checkURLProcEscapeMode(p *Program, r *Report, rule string) *urlProcTables {
 }
 
 func runC13(p *Program, r *Report) {
+	engineConsistency(p, r, "C13.E", func(n string) bool { return strings.Contains(n, "") })
+
 	r.Trusted = []string{"go/types + go/ssa", "regexp/syntax semantics as modelled by relang", "regexp.ReplaceAllStringFunc replaces exactly the matches of the marker pattern with the closure's results", "sort.Strings / strings.Join", "net/url-level reading of the result (paper): text over unreserved characters cannot introduce a delimiter"}
 	r.NotDecided = []string{"equality of the net/url decomposition of the result with that of the format/base", "TrustedResourceURLAppend(t, \"..\") (observation O5: the statement's dot-segment clause is about format arguments)"}
 	r.Explain = "Prefix guard: the success construction of both builders is dominated by the prefix predicate, whose regular language is included in the statement's four prefixes (ASCII case only). Substitution: the closure handed to ReplaceAllStringFunc returns only \"\" (with the error set) or QueryEscapeURL(args[label]); marker language. Escape alphabet: urlProcessor's byte decision table in escape mode copies exactly the unreserved set. Dot segments: the nil-error construction is dominated by a guard on the assembled string whose language excludes every string with two adjacent dot units. WithParams: fragment split/re-append, separator choice, encoded sorted pairs."
